@@ -1,7 +1,7 @@
-(* Model of bridge_env/score.py; every number comes from Gen/ScoreConsts.v,
-   which is regenerated from the source on every run.  No proofs here. *)
+(* Model of bridge_env/score.py; every number is a constant of Model/ScoreConstsHand.v, pinned to the numbers regenerated
+   from the source on every run by Proofs/ScoreConstsPin.v.  No proofs here. *)
 From BE Require Export Model.Basics.
-From BE Require Import Gen.ScoreConsts.
+From BE Require Export Model.ScoreConstsHand.
 Local Open Scope Z_scope.
 
 Definition is_minor (s : strain) : bool := (strain_val s <=? 2)%nat.             (* value <= 2 *)
